@@ -566,9 +566,11 @@ func runTransport(accept string, retries, n int, script []string, size int, seed
 		servers = append(servers, s)
 		bases = append(bases, s.URL+"/")
 		w.hosts[strings.TrimPrefix(s.URL, "http://")] = i
-		if i < down {
-			s.Close()
-		}
+	}
+	// close the "down" servers only after all of them exist: a port closed earlier can be handed
+	// to a later listener, and two bases would then name the same live server
+	for i := 0; i < down && i < n; i++ {
+		servers[i].Close()
 	}
 	tr := &http.Transport{}
 	hc := &http.Client{Transport: &scriptedRT{w: w, inner: tr}, Timeout: 60 * time.Second}
